@@ -6,8 +6,8 @@ import NomtModel.Store.BranchUpdExamples
 `DbOK kf db` is what the decoders / the image monitor require of the bottom level of branch nodes (as far as the branch
 stage is concerned): every node non-empty with ascending keys below 2^256, `1 ≤ prefix_compressed ≤ n`, the compressed
 keys share the first `prefix_len` bits, the stored separator lengths are the ones `BranchNodeBuilder::push` writes, the
-index separators ascend and bound the keys of their nodes.  With the repair of finding F20 (`kf.canon`,
-`notes/Q12_F20_suggested_fix.diff`) the level the stage produces satisfies it again — for every level, every change list
+index separators ascend and bound the keys of their nodes.  With the repair of finding F22 (`kf.canon`,
+`notes/Q12_F22_suggested_fix.diff`) the level the stage produces satisfies it again — for every level, every change list
 and every page-number assignment of the allocator — hence so does every level reachable by any sequence of stages.
 -/
 namespace Nomt.C16
